@@ -182,19 +182,42 @@ Theorem no_computation_begins_after_end : forall w p h p' rid,
 Proof. exact ProofsProduct.no_computation_begins_after_end_l. Qed.
 Print Assumptions no_computation_begins_after_end.
 
-(** Its reactive resources are released.
-    FULL STATEMENT: ... and every resource node registered by a computation of [rid] that no other
-    computation depends on has [n_rel] set and its Cleanup ran exactly once.
-    PROVED (partial): when the system has come to rest after the end of a subscription, its rerunner holds
-    no computation (Stop handed it to release()), no goroutine is left, every resource node that took part
-    in a dependency and has no dependant left has been released with exactly one Cleanup call (C08's
-    [cleanup_exactly_once_at_quiescence]), every resource node all of whose registrants - the computations that
-    called AddDependency on it - are released has no dependant left and had its one Cleanup call (C08's
-    [cleanup_exactly_once_after_last_registrant_released]), and no Cleanup callback anywhere ran twice.
-    Missing: that every computation of a stopped rerunner is itself released at rest (an ownership invariant for
-    unreleased computation nodes that Reactive/ does not provide); at the level of the rerunner interface that
-    part is [released_when_stopped] above. *)
-Theorem released_after_end_partial : forall w p rid,
+(** ITS REACTIVE RESOURCES ARE RELEASED (full statement).  [progs_ok (w_slots w) (w_progs w)]: the compute
+    scripts of the world only read data slots that exist.  When the system has come to rest after the end of a
+    subscription: its rerunner holds no computation (Stop handed it to release()); no goroutine is left; every
+    node of the reactive graph that is still unreleased - a computation, or anything that was depended upon - is,
+    through a chain of dependants, a dependency of the current computation of ANOTHER rerunner, one whose
+    subscription or mutation has not ended ([alive_in]); hence every resource that was depended upon has [n_rel]
+    set and its Cleanup ran exactly once, unless such a live computation still depends on it; and no Cleanup
+    callback anywhere ran twice.  Everything only the ended subscription's computations - current, superseded,
+    cached - depended on is therefore released, the timers of InvalidateAfter included.
+    (Reactive/ProofsOwnership.v: the ownership invariant - every unreleased computation node is the current
+    computation of a rerunner, or was adopted by a parent, or a goroutine is about to publish / store / link /
+    release it -, the ranked dependency graph, and C08's Refcount and Link invariants; Props/C08.v
+    [stopped_rerunner_holds_nothing_at_quiescence].) *)
+Theorem released_after_end : forall w p rid,
+  RC.progs_ok (w_slots w) (w_progs w) ->
+  preachable w p -> stopped_in (fst p) rid = true -> RR.quiescent (snd p) ->
+  RR.r_comp (RR.getr (snd p) rid) = None
+  /\ RB.all_frames (snd p) = []
+  /\ (forall x, x < List.length (RR.s_nodes (snd p)) -> RG.n_rel (RR.getN (snd p) x) = false ->
+        RG.n_had (RR.getN (snd p) x) = true \/ (RG.n_hrel (RR.getN (snd p) x) = None /\ RG.n_timer (RR.getN (snd p) x) = 0) ->
+        exists r top, r <> rid /\ alive_in (fst p) r = true /\ RR.r_comp (RR.getr (snd p) r) = Some top /\
+                      RH.reach (RR.s_nodes (snd p)) x top)
+  /\ (forall n, RG.n_had (RR.getN (snd p) n) = true -> RG.n_hrel (RR.getN (snd p) n) <> None ->
+        (RG.n_rel (RR.getN (snd p) n) = true /\ RG.n_cln (RR.getN (snd p) n) = 1) \/
+        exists r top, r <> rid /\ alive_in (fst p) r = true /\ RR.r_comp (RR.getr (snd p) r) = Some top /\
+                      RH.reach (RR.s_nodes (snd p)) n top)
+  /\ (forall n, RG.n_cln (RR.getN (snd p) n) <= 1).
+Proof. exact ProofsProduct.released_after_end_full_l. Qed.
+Print Assumptions released_after_end.
+
+(** The same by reference count and by registrants, for every world (no hypothesis on the scripts): at rest
+    after the end of a subscription every resource node that took part in a dependency and has no dependant left
+    has been released with exactly one Cleanup call (C08's [cleanup_exactly_once_at_quiescence]); so has every
+    resource node all of whose registrants - the computations that called AddDependency on it - are released
+    (C08's [cleanup_exactly_once_after_last_registrant_released]). *)
+Theorem resources_without_dependants_are_cleaned_after_end : forall w p rid,
   preachable w p -> stopped_in (fst p) rid = true -> RR.quiescent (snd p) ->
   RR.r_comp (RR.getr (snd p) rid) = None
   /\ RB.all_frames (snd p) = []
@@ -206,7 +229,19 @@ Theorem released_after_end_partial : forall w p rid,
                 RG.n_out (RR.getN (snd p) n) = [] /\ RG.n_rel (RR.getN (snd p) n) = true /\ RG.n_cln (RR.getN (snd p) n) = 1)
   /\ (forall n, RG.n_cln (RR.getN (snd p) n) <= 1).
 Proof. exact ProofsProduct.released_after_end_l. Qed.
-Print Assumptions released_after_end_partial.
+Print Assumptions resources_without_dependants_are_cleaned_after_end.
+
+(** non-vacuity of [released_after_end]: the scripts of the witness world read existing slots; in the final state
+    of [after_end_example] (everything stopped, at rest) every node that is a computation or was depended upon is
+    released. *)
+Example wx_progs_ok : RC.progs_ok (w_slots wx) (w_progs wx).
+Proof. intros q [<-|[<-|[<-|[]]]]; reflexivity. Qed.
+
+Example after_end_everything_released :
+  exists sv rx, prun wx (pinit wx) h_end = Some (sv, rx) /\ RR.quiescent rx /\
+    forallb (fun x => RG.n_rel x || negb (RG.n_had x || (match RG.n_hrel x with None => true | Some _ => false end && Nat.eqb (RG.n_timer x) 0)))
+            (RR.s_nodes rx) = true.
+Proof. eexists. eexists. split; [vm_compute; reflexivity|]. split; vm_compute; reflexivity. Qed.
 
 (** After the connection closed every rerunner it ever created is stopped in the reactive package and holds
     no computation. *)
